@@ -52,40 +52,51 @@ Proof. reflexivity. Qed.
 Lemma SetFileMode_call_eq : forall e s m p, SetFileMode_call e s m p = (fs_chmod e s (resolve e p) m, p).
 Proof. intros; unfold SetFileMode_call; rewrite ?bind_ret; reflexivity. Qed.
 
-(* the gate at a path that is not a symbolic link *)
-Ltac unfold_gate L H D :=
-  unfold handle_overwrite, resolve, is_symlink; rewrite ?L; unfold fs_exists, fs_is_dir, fs_st_mode;
+(* the gate at a path that is a plain entry: not a symbolic link, not a device/FIFO/socket *)
+Ltac unfold_gate L S H D :=
+  unfold handle_overwrite, resolve, is_symlink; rewrite ?L; unfold fs_exists_at, fs_exists, fs_is_file, fs_is_dir, fs_st_mode; rewrite ?S;
   repeat (progress (rewrite ?H, ?D; cbv [bind fst snd negb andb orb])).
 
-Lemma handle_overwrite_absent : forall e s p a, links e p = None -> s p = None -> handle_overwrite e s p a = (s, Ok).
-Proof. intros e s p a L H. unfold_gate L H H. reflexivity. Qed.
+Lemma handle_overwrite_absent : forall e s p a, links e p = None -> special e p = false -> s p = None -> handle_overwrite e s p a = (s, Ok).
+Proof. intros e s p a L S H. unfold_gate L S H H. reflexivity. Qed.
 
-Lemma handle_overwrite_refuse : forall e s p f, links e p = None -> s p = Some f -> f_isdir f = false ->
+Lemma handle_overwrite_refuse : forall e s p f, links e p = None -> special e p = false -> s p = Some f -> f_isdir f = false ->
   handle_overwrite e s p false = (s, Err EExists).
-Proof. intros e s p f L H D. unfold_gate L H D. reflexivity. Qed.
+Proof. intros e s p f L S H D. unfold_gate L S H D. reflexivity. Qed.
 
-Lemma handle_overwrite_refuse_any : forall e s p f, links e p = None -> s p = Some f ->
+Lemma handle_overwrite_refuse_any : forall e s p f, links e p = None -> special e p = false -> s p = Some f ->
   exists er, handle_overwrite e s p false = (s, Err er).
-Proof. intros e s p f L H. destruct (f_isdir f) eqn:D; unfold_gate L H D; eexists; reflexivity. Qed.
+Proof. intros e s p f L S H. destruct (f_isdir f) eqn:D; unfold_gate L S H D; eexists; reflexivity. Qed.
 
-Lemma handle_overwrite_allow : forall e s p f, links e p = None -> s p = Some f -> f_isdir f = false ->
+Lemma handle_overwrite_allow : forall e s p f, links e p = None -> special e p = false -> s p = Some f -> f_isdir f = false ->
   handle_overwrite e s p true = fs_chmod e s p (N.lor (f_mode f) 144).
-Proof. intros e s p f L H D. unfold_gate L H D. reflexivity. Qed.
+Proof. intros e s p f L S H D. unfold_gate L S H D. reflexivity. Qed.
 
-(* a directory at the path is refused, whether or not overwriting is allowed (fix 7df01dd) *)
-Lemma handle_overwrite_dir : forall e s p f a, links e p = None -> s p = Some f -> f_isdir f = true ->
+(* FIX-STATE OBLIGATION (7df01dd): a directory at the path is refused, whether or not overwriting is allowed.  Reverting the
+   fix breaks this lemma. *)
+Lemma handle_overwrite_dir : forall e s p f a, links e p = None -> special e p = false -> s p = Some f -> f_isdir f = true ->
   exists er, handle_overwrite e s p a = (s, Err er).
-Proof. intros e s p f a L H D. destruct a; unfold_gate L H D; eexists; reflexivity. Qed.
+Proof. intros e s p f a L S H D. destruct a; unfold_gate L S H D; eexists; reflexivity. Qed.
 
-Lemma handle_overwrite_conflict : forall e s p f, links e p = None -> s p = Some f ->
+Lemma handle_overwrite_conflict : forall e s p f, links e p = None -> special e p = false -> s p = Some f ->
   handle_overwrite e s p false = (s, Err EExists).
-Proof. intros e s p f L H. destruct (f_isdir f) eqn:D; unfold_gate L H D; reflexivity. Qed.
+Proof. intros e s p f L S H. destruct (f_isdir f) eqn:D; unfold_gate L S H D; reflexivity. Qed.
 
-(* does the gate of /repo refuse symbolic links (live or dangling) at the path of a file to generate?  Not before the
-   proposed fix design_notes/C12_symlink_fix.patch: exists()/chmod()/open() follow links.  Statements that need it take it as
-   a premise; which of the two holds for the translated gate is decided by computation in gate_links_dichotomy below. *)
+(* FIX-STATE OBLIGATION (84a8551): the gate refuses symbolic links (live or dangling) at the path of a file to generate,
+   whether or not overwriting is allowed, and leaves the tree as it is.  Reverting the fix breaks this theorem. *)
 Definition gate_refuses_links : Prop :=
   forall e s p a d, links e p = Some d -> exists er, handle_overwrite e s p a = (s, Err er).
+
+Theorem gate_refuses_links_now : gate_refuses_links.
+Proof.
+  intros e s p a d L. unfold handle_overwrite, is_symlink. rewrite L. rewrite ?orb_true_r. cbn [negb]. rewrite ?andb_false_r.
+  eexists. reflexivity.
+Qed.
+
+(* entries that are neither file nor directory nor link (devices, FIFOs, sockets): refused once
+   design_notes/C12_nonregular_fix.patch has landed (is_file() instead of not is_dir()).  Until then a premise. *)
+Definition gate_refuses_special : Prop :=
+  forall e s p a, links e p = None -> special e p = true -> exists er, handle_overwrite e s p a = (s, Err er).
 
 (* ------------------------------------------------------------------------------------------ *)
 (* the footprint relation: what any sequence of operations can do to a tree when it only        *)
@@ -176,7 +187,8 @@ Qed.
 Lemma fs_write_in_rel : forall (T A : path -> Prop) d q c, T q -> rel_fn e T A (fun s => fs_write_in e s d q c).
 Proof.
   intros T A d q c Tq s; unfold fs_write_in. destruct (s q) as [f|] eqn:E.
-  - destruct (f_isdir f); cbn [fst]; [apply rel_refl|]. destruct (writable e f); cbn [fst]; [|apply rel_refl].
+  - destruct (f_isdir f); cbn [fst]; [apply rel_refl|]. destruct (special e q); cbn [fst]; [apply rel_refl|].
+    destruct (writable e f); cbn [fst]; [|apply rel_refl].
     apply rel_upd_T; auto; [rewrite E; cbn; auto | congruence].
   - destruct (allows e s d); cbn [fst]; [|apply rel_refl].
     apply rel_upd_T; auto. rewrite E; cbn; auto.
@@ -465,6 +477,7 @@ Qed.
 Variable c : cfg.
 Variable p : path.
 Hypothesis Hl : links e p = None.          (* p is not a symbolic link *)
+Hypothesis Hs : special e p = false.       (* nor a device, FIFO or socket *)
 Hypothesis Hd : c_dryrun c = false.
 Hypothesis Hne : no_external (c_filepps c) = true.   (* success and canonical content are proved without --pp-run-program only *)
 
@@ -511,7 +524,7 @@ Proof.
               f_cid f3 = R /\ f_owned f3 = f_owned f /\ f_isdir f3 = false /\ forall q, q <> p -> s3 q = s2 q).
   { unfold body. destruct k as [|[|]]; [| |destruct (c_linepps c)]; cbn [run_act]; rewrite (resolve_id e p Hl);
     rewrite (Hind s2 (c_amb c) empty_fs 0); fold R;
-    unfold fs_copy, fs_is_dir, fs_write, fs_write_in; rewrite E, D, ?Wr; ex;
+    unfold fs_copy, fs_is_dir, fs_write, fs_write_in; rewrite E, D, ?Hs, ?Wr; ex;
     unfold fs_chmod; rewrite ?upd_same; cbn [f_owned set_cid]; rewrite ?Hp; ex;
     (eexists; eexists; split; [reflexivity|]; rewrite ?upd_same; split; [reflexivity|];
      cbn [f_cid f_owned f_isdir set_mode set_cid]; repeat split; auto; intros q Hq; rewrite ?upd_other by exact Hq; reflexivity). }
@@ -538,7 +551,7 @@ Lemma W_absent : forall k s, s p = None ->
   (snd (M s) = Ok /\ allows e (fst (M s)) (parent_of e p) = true /\
    exists s', W k s = (s', Ok) /\ written s' true /\ forall q, q <> p -> s' q = fst (M s) q).
 Proof.
-  intros k s E. open_writer. rewrite (handle_overwrite_absent e s p _ Hl E). ex.
+  intros k s E. open_writer. rewrite (handle_overwrite_absent e s p _ Hl Hs E). ex.
   pose proof (M_keeps_p s) as Kp. pose proof (mkdirs_err_kind e (ancestors e p) None s) as Ek.
   destruct (M s) as [s2 [|er]] eqn:EM; cbn [fst snd] in *; ex.
   - rewrite E in Kp. destruct (allows e s2 (parent_of e p)) eqn:Al.
@@ -549,17 +562,17 @@ Qed.
 
 Lemma W_refuse_any : forall k s f, s p = Some f -> c_allow c = false -> exists er, W k s = (s, Err er).
 Proof.
-  intros k s f E Ha. open_writer. rewrite Ha. destruct (handle_overwrite_refuse_any e s p f Hl E) as [er H].
+  intros k s f E Ha. open_writer. rewrite Ha. destruct (handle_overwrite_refuse_any e s p f Hl Hs E) as [er H].
   rewrite H. ex. eauto.
 Qed.
 
 Lemma W_refuse : forall k s f, s p = Some f -> f_isdir f = false -> c_allow c = false -> W k s = (s, Err EExists).
-Proof. intros k s f E D Ha. open_writer. rewrite Ha, (handle_overwrite_refuse e s p f Hl E D). ex. reflexivity. Qed.
+Proof. intros k s f E D Ha. open_writer. rewrite Ha, (handle_overwrite_refuse e s p f Hl Hs E D). ex. reflexivity. Qed.
 
 Lemma W_noperm : forall k s f, s p = Some f -> f_isdir f = false -> c_allow c = true -> superuser e || f_owned f = false ->
   W k s = (s, Err EPermChmod).
 Proof.
-  intros k s f E D Ha Hp. open_writer. rewrite Ha, (handle_overwrite_allow e s p f Hl E D). unfold fs_chmod. rewrite E, Hp. ex. reflexivity.
+  intros k s f E D Ha Hp. open_writer. rewrite Ha, (handle_overwrite_allow e s p f Hl Hs E D). unfold fs_chmod. rewrite E, Hp. ex. reflexivity.
 Qed.
 
 Definition gated (s : fs) (f : fmeta) : fs := upd s p (set_mode f (N.land (N.lor (f_mode f) 144) 4095)).
@@ -569,7 +582,7 @@ Lemma W_overwrite : forall k s f, s p = Some f -> f_isdir f = false -> c_allow c
   (snd (M (gated s f)) = Ok /\
    exists s', W k s = (s', Ok) /\ written s' (f_owned f) /\ forall q, q <> p -> s' q = fst (M (gated s f)) q).
 Proof.
-  intros k s f E D Ha Hp. open_writer. rewrite Ha, (handle_overwrite_allow e s p f Hl E D). unfold fs_chmod. rewrite E, Hp. ex.
+  intros k s f E D Ha Hp. open_writer. rewrite Ha, (handle_overwrite_allow e s p f Hl Hs E D). unfold fs_chmod. rewrite E, Hp. ex.
   fold (gated s f). pose proof (M_keeps_p (gated s f)) as Kp. unfold gated at 2 in Kp. rewrite upd_same in Kp.
   destruct (M (gated s f)) as [s2 [|er]] eqn:EM; cbn [fst snd] in *; ex.
   - right. split; [reflexivity|].
@@ -581,7 +594,7 @@ Qed.
 
 Lemma W_dir_refused : forall k s f, s p = Some f -> f_isdir f = true -> exists er, W k s = (s, Err er).
 Proof.
-  intros k s f E D. open_writer. destruct (handle_overwrite_dir e s p f (c_allow c) Hl E D) as [er H]. rewrite H. ex. eauto.
+  intros k s f E D. open_writer. destruct (handle_overwrite_dir e s p f (c_allow c) Hl Hs E D) as [er H]. rewrite H. ex. eauto.
 Qed.
 
 (* a successful write leaves the canonical regular file *)
@@ -605,12 +618,12 @@ Lemma gate_ok_nodir : forall s s1 a, handle_overwrite e s p a = (s1, Ok) -> fs_i
 Proof.
   intros s s1 a H. unfold fs_is_dir. destruct (s p) as [f|] eqn:E.
   - destruct (f_isdir f) eqn:D.
-    + destruct (handle_overwrite_dir e s p f a Hl E D) as [er H1]. congruence.
+    + destruct (handle_overwrite_dir e s p f a Hl Hs E D) as [er H1]. congruence.
     + destruct a.
-      * rewrite (handle_overwrite_allow e s p f Hl E D) in H. unfold fs_chmod in H. rewrite E in H.
+      * rewrite (handle_overwrite_allow e s p f Hl Hs E D) in H. unfold fs_chmod in H. rewrite E in H.
         destruct (superuser e || f_owned f); [|discriminate]. injection H as <-. rewrite upd_same. exact D.
-      * rewrite (handle_overwrite_refuse e s p f Hl E D) in H. discriminate.
-  - rewrite (handle_overwrite_absent e s p a Hl E) in H. injection H as <-. now rewrite E.
+      * rewrite (handle_overwrite_refuse e s p f Hl Hs E D) in H. discriminate.
+  - rewrite (handle_overwrite_absent e s p a Hl Hs E) in H. injection H as <-. now rewrite E.
 Qed.
 
 Lemma rel_bind_ok : forall (T A : path -> Prop) x k s,
@@ -660,7 +673,7 @@ Proof.
 Qed.
 
 Lemma W_conflict : forall k s f, s p = Some f -> c_allow c = false -> W k s = (s, Err EExists).
-Proof. intros k s f E Ha. open_writer. rewrite Ha, (handle_overwrite_conflict e s p f Hl E). ex. reflexivity. Qed.
+Proof. intros k s f E Ha. open_writer. rewrite Ha, (handle_overwrite_conflict e s p f Hl Hs E). ex. reflexivity. Qed.
 
 Lemma W_absent_ready : forall k s, s p = None -> ready e s p = true ->
   exists s', W k s = (s', Ok) /\ written s' true /\ forall q, q <> p -> s' q = fst (M s) q.
@@ -668,7 +681,7 @@ Proof.
   intros k s E Hr. unfold ready in Hr. apply andb_true_iff in Hr. destruct Hr as [R1 R2]. rewrite E in R2.
   destruct (W_absent k s E) as [[er [H1 H2]]|[_ [_ X]]]; [|exact X].
   exfalso. unfold write_item in H1. cbn [fst snd] in H1. rewrite (flat_acts_shape c _ Hd) in H1. cbn [run_acts run_act] in H1.
-  rewrite (handle_overwrite_absent e s p _ Hl E) in H1. rewrite bind_pair_ok in H1.
+  rewrite (handle_overwrite_absent e s p _ Hl Hs E) in H1. rewrite bind_pair_ok in H1.
   pose proof (M_keeps_p s) as Kp. rewrite E in Kp.
   destruct (M s) as [s2 r2]; cbn [fst snd] in *. destruct r2; [|discriminate]. rewrite bind_pair_ok in H1.
   destruct (tail_absent k s2 Kp R2) as [s3 [H3 _]]. rewrite H3 in H1. discriminate.
@@ -687,7 +700,7 @@ Proof.
     intros a Ha'. left. unfold gated. apply upd_other. intros ->. exact (Hwf p Ha').
   - destruct (W_absent k s E) as [[er [H1 H2]]|[_ [_ [s2 [H1 [H2 _]]]]]]; [|eauto].
     exfalso. unfold write_item in H1. cbn [fst snd] in H1. rewrite (flat_acts_shape c _ Hd) in H1. cbn [run_acts run_act] in H1.
-    rewrite (handle_overwrite_absent e s p _ Hl E) in H1. rewrite bind_pair_ok in H1.
+    rewrite (handle_overwrite_absent e s p _ Hl Hs E) in H1. rewrite bind_pair_ok in H1.
     pose proof (M_keeps_p s) as Kp. rewrite E in Kp.
     destruct (M s) as [s2 r2]; cbn [fst snd] in *. subst r2. rewrite bind_pair_ok in H1.
     destruct (tail_absent k s2 Kp R2) as [s3 [H3 _]]. rewrite H3 in H1. discriminate.
@@ -715,71 +728,78 @@ Notation Rn c p := (render empty_fs 0 (c_class c) p).
 
 Definition tgt (c : cfg) (q : path) : Prop := In q (targets c).
 
-(* symbolic links: a path is harmless when it is not a link, or when the gate refuses links *)
-Definition link_ok (p : path) : Prop := links e p = None \/ gate_refuses_links.
-Definition links_safe (c : cfg) : Prop := forall p, In p (targets c) -> link_ok p.
-Definition links_clear (c : cfg) : Prop := forall p, In p (targets c) -> links e p = None.
+(* symbolic links at targets are refused (gate_refuses_links_now); devices/FIFOs/sockets are harmless when the gate refuses them *)
+Definition entry_ok (p : path) : Prop := special e p = false \/ gate_refuses_special.
+Definition specials_safe (c : cfg) : Prop := forall p, In p (targets c) -> entry_ok p.
+Definition targets_plain (c : cfg) : Prop := forall p, In p (targets c) -> links e p = None /\ special e p = false.
 
-Lemma link_cases : forall p, link_ok p -> links e p = None \/ (gate_refuses_links /\ exists d, links e p = Some d).
-Proof. intros p [H|H]; [now left|]. destruct (links e p) as [d|] eqn:L; [right; eauto | now left]. Qed.
+Definition refused (p : path) : Prop := forall s a, exists er, handle_overwrite e s p a = (s, Err er).
 
-Lemma links_clear_safe : forall c, links_clear c -> links_safe c.
-Proof. intros c H p Hp. left. now apply H. Qed.
-
-Lemma W_link_refused : forall c p d k s, gate_refuses_links -> links e p = Some d -> c_dryrun c = false ->
-  exists er, write_item render e c s (p, k) = (s, Err er).
+Lemma link_cases : forall p, entry_ok p -> (links e p = None /\ special e p = false) \/ refused p.
 Proof.
-  intros c p d k s Hg L Hd. unfold write_item. cbn [fst snd]. rewrite (flat_acts_shape c k Hd). cbn [run_acts run_act].
-  destruct (Hg e s p (c_allow c) d L) as [er H]. rewrite H, bind_pair_err. eauto.
+  intros p H. unfold entry_ok in H. destruct (links e p) as [d|] eqn:L.
+  - right. intros s a. exact (gate_refuses_links_now e s p a d L).
+  - destruct (special e p) eqn:S; [|left; auto]. right. destruct H as [H|H]; [congruence|]. intros s a. now apply H.
 Qed.
 
-Lemma W_link_prefix : forall c p d k j s, gate_refuses_links -> links e p = Some d -> c_dryrun c = false ->
+Lemma targets_plain_safe : forall c, targets_plain c -> specials_safe c.
+Proof. intros c H p Hp. left. now apply H. Qed.
+
+Lemma W_link_refused : forall c p k s, refused p -> c_dryrun c = false ->
+  exists er, write_item render e c s (p, k) = (s, Err er).
+Proof.
+  intros c p k s Hr Hd. unfold write_item. cbn [fst snd]. rewrite (flat_acts_shape c k Hd). cbn [run_acts run_act].
+  destruct (Hr s (c_allow c)) as [er H]. rewrite H, bind_pair_err. eauto.
+Qed.
+
+Lemma W_link_prefix : forall c p k j s, refused p -> c_dryrun c = false ->
   run_acts render e c p (firstn j (flat_acts c k)) s = (s, Ok) /\ j = O \/
   exists er, run_acts render e c p (firstn j (flat_acts c k)) s = (s, Err er).
 Proof.
-  intros c p d k j s Hg L Hd. rewrite (flat_acts_shape c k Hd). destruct j as [|j]; cbn [firstn run_acts]; [left; auto|].
-  right. cbn [run_act]. destruct (Hg e s p (c_allow c) d L) as [er H]. rewrite H, bind_pair_err. eauto.
+  intros c p k j s Hr Hd. rewrite (flat_acts_shape c k Hd). destruct j as [|j]; cbn [firstn run_acts]; [left; auto|].
+  right. cbn [run_act]. destruct (Hr s (c_allow c)) as [er H]. rewrite H, bind_pair_err. eauto.
 Qed.
+
 (* what a configuration needs as a directory it (or another one) never writes as a file, and vice versa *)
 Definition compatible (c c' : cfg) : Prop :=
   (forall q, anc e c q -> ~ tgt c' q) /\ (forall q, anc e c' q -> ~ tgt c q).
 
 (* ---- the fine footprint: targets and missing directories above them, nothing else ---- *)
-Lemma write_item_rel_fine : forall c it, In it (items c) -> link_ok (fst it) ->
+Lemma write_item_rel_fine : forall c it, In it (items c) -> entry_ok (fst it) ->
   rel_fn e (tgt c) (anc e c) (fun s => write_item render e c s it).
 Proof.
   intros c [p k] H Lk s. destruct (c_dryrun c) eqn:Hd.
   - rewrite W_dry by exact Hd. apply rel_refl.
-  - destruct (link_cases p Lk) as [Hl|[Hg [d L]]];
-      [|destruct (W_link_refused c p d k s Hg L Hd) as [er X]; rewrite X; apply rel_refl].
-    eapply rel_weaken; [| |apply (W_rel_fine render e Hwf c p Hl Hd k s)].
+  - destruct (link_cases p Lk) as [[Hl Hs]|Hr];
+      [|destruct (W_link_refused c p k s Hr Hd) as [er X]; rewrite X; apply rel_refl].
+    eapply rel_weaken; [| |apply (W_rel_fine render e Hwf c p Hl Hs Hd k s)].
     + intros q ->. unfold tgt, targets. now apply (in_map fst _ (p, k)).
     + intros q Hq. now apply (item_anc e c (p, k)).
 Qed.
 
-Lemma write_item_prefix_rel_fine : forall c it j, In it (items c) -> link_ok (fst it) ->
+Lemma write_item_prefix_rel_fine : forall c it j, In it (items c) -> entry_ok (fst it) ->
   rel_fn e (tgt c) (anc e c) (run_acts render e c (fst it) (firstn j (flat_acts c (snd it)))).
 Proof.
   intros c [p k] j H Lk s. cbn [fst snd] in *. destruct (c_dryrun c) eqn:Hd.
   - rewrite flat_acts_dry by exact Hd. replace (firstn j []) with (@nil act) by (now destruct j). apply rel_refl.
-  - destruct (link_cases p Lk) as [Hl|[Hg [d L]]];
-      [|destruct (W_link_prefix c p d k j s Hg L Hd) as [[X _]|[er X]]; rewrite X; apply rel_refl].
-    eapply rel_weaken; [| |apply (W_prefix_rel_fine render e Hwf c p Hl Hd k j s)].
+  - destruct (link_cases p Lk) as [[Hl Hs]|Hr];
+      [|destruct (W_link_prefix c p k j s Hr Hd) as [[X _]|[er X]]; rewrite X; apply rel_refl].
+    eapply rel_weaken; [| |apply (W_prefix_rel_fine render e Hwf c p Hl Hs Hd k j s)].
     + intros q ->. unfold tgt, targets. now apply (in_map fst _ (p, k)).
     + intros q Hq. now apply (item_anc e c (p, k)).
 Qed.
 
-Lemma item_link_ok : forall c it, links_safe c -> In it (items c) -> link_ok (fst it).
+Lemma item_entry_ok : forall c it, specials_safe c -> In it (items c) -> entry_ok (fst it).
 Proof. intros c it H Hi. apply H. unfold targets. now apply in_map. Qed.
 
-Lemma sublist_rel_fine : forall c l, links_safe c -> (forall it, In it l -> In it (items c)) ->
+Lemma sublist_rel_fine : forall c l, specials_safe c -> (forall it, In it l -> In it (items c)) ->
   rel_fn e (tgt c) (anc e c) (fun s => WL c s l).
-Proof. intros c l Ls H. apply run_list_rel. intros it Hit. apply write_item_rel_fine; auto. apply (item_link_ok c); auto. Qed.
+Proof. intros c l Ls H. apply run_list_rel. intros it Hit. apply write_item_rel_fine; auto. apply (item_entry_ok c); auto. Qed.
 
-Lemma step_rel_fine : forall c, links_safe c -> rel_fn e (tgt c) (anc e c) (fun s => step render e s c).
+Lemma step_rel_fine : forall c, specials_safe c -> rel_fn e (tgt c) (anc e c) (fun s => step render e s c).
 Proof. intros c Ls s. rewrite step_flat. now apply sublist_rel_fine. Qed.
 
-Lemma step_crash_rel_fine : forall c n j junk s, links_safe c -> rel e (tgt c) (anc e c) s (step_crash render e s c n j junk).
+Lemma step_crash_rel_fine : forall c n j junk s, specials_safe c -> rel e (tgt c) (anc e c) s (step_crash render e s c n j junk).
 Proof.
   intros c n j junk s Ls. unfold step_crash.
   assert (R1 : rel e (tgt c) (anc e c) s (fst (WL c s (firstn n (items c))))).
@@ -789,7 +809,7 @@ Proof.
   apply nth_error_In in E. cbn [fst snd].
   set (s1 := fst (WL c s (firstn n (items c)))) in *.
   assert (R2 : rel e (tgt c) (anc e c) s (fst (run_acts render e c p (firstn j (flat_acts c k)) s1))).
-  { eapply rel_trans; [exact R1|]. apply (write_item_prefix_rel_fine c (p, k) j E). apply (item_link_ok c (p, k)); auto. }
+  { eapply rel_trans; [exact R1|]. apply (write_item_prefix_rel_fine c (p, k) j E). apply (item_entry_ok c (p, k)); auto. }
   destruct (snd (run_acts render e c p (firstn j (flat_acts c k)) s1)) eqn:Eok; [|exact R2].
   destruct junk as [g|]; [|exact R2].
   assert (Wr : rel e (tgt c) (anc e c) s
@@ -808,8 +828,8 @@ Proof.
   (* the write happens: the path is not a link (a link would have stopped the prefix at the gate) *)
   destruct (c_dryrun c) eqn:Hd; [rewrite flat_acts_dry in En by exact Hd; destruct j; discriminate|].
   assert (Hl : links e p = None).
-  { destruct (link_cases p (item_link_ok c (p, k) Ls E)) as [Hl|[Hg [d L]]]; [exact Hl|]. exfalso.
-    destruct (W_link_prefix c p d k j s1 Hg L Hd) as [[_ ->]|[er X]].
+  { destruct (link_cases p (item_entry_ok c (p, k) Ls E)) as [[Hl Hs]|Hr]; [exact Hl|]. exfalso.
+    destruct (W_link_prefix c p k j s1 Hr Hd) as [[_ ->]|[er X]].
     - rewrite (flat_acts_shape c k Hd) in En. cbn in En. injection En as <-. destruct Ha; discriminate.
     - rewrite X in Eok. discriminate. }
   eapply rel_trans; [exact R2|]. rewrite (resolve_id e p Hl).
@@ -818,10 +838,10 @@ Qed.
 
 Definition tgt_h (h : list event) (q : path) : Prop := exists ev, In ev h /\ tgt (ev_cfg ev) q.
 
-Lemma event_rel_fine : forall ev s, links_safe (ev_cfg ev) -> rel e (tgt (ev_cfg ev)) (anc e (ev_cfg ev)) s (apply_event render e s ev).
+Lemma event_rel_fine : forall ev s, specials_safe (ev_cfg ev) -> rel e (tgt (ev_cfg ev)) (anc e (ev_cfg ev)) s (apply_event render e s ev).
 Proof. intros [c|c n j junk] s Ls; cbn [apply_event ev_cfg] in *; [now apply step_rel_fine | now apply step_crash_rel_fine]. Qed.
 
-Lemma history_rel_fine : forall h s, (forall ev, In ev h -> links_safe (ev_cfg ev)) -> rel e (tgt_h h) (anc_h e h) s (history render e s h).
+Lemma history_rel_fine : forall h s, (forall ev, In ev h -> specials_safe (ev_cfg ev)) -> rel e (tgt_h h) (anc_h e h) s (history render e s h).
 Proof.
   induction h as [|ev r IH]; intros s Ls; cbn [history fold_left].
   - apply rel_refl.
@@ -837,46 +857,47 @@ Proof.
 Qed.
 
 (* a successful write of p changes no other existing entry *)
-Lemma W_frame_ok : forall c p k s s', links e p = None -> c_dryrun c = false -> write_item render e c s (p, k) = (s', Ok) ->
-  forall q, q <> p -> s q <> None -> s' q = s q.
+Lemma W_frame_ok : forall c p k s s', links e p = None -> special e p = false -> c_dryrun c = false ->
+  write_item render e c s (p, k) = (s', Ok) -> forall q, q <> p -> s q <> None -> s' q = s q.
 Proof.
-  intros c p k s s' Hl Hd H q Hq Hs.
+  intros c p k s s' Hl Hsp Hd H q Hq Hs.
   replace s' with (fst (write_item render e c s (p, k))) by now rewrite H.
-  destruct (W_rel_fine render e Hwf c p Hl Hd k s q) as [F _]. destruct (F Hq) as [X|[_ [X _]]]; [exact X | congruence].
+  destruct (W_rel_fine render e Hwf c p Hl Hsp Hd k s q) as [F _]. destruct (F Hq) as [X|[_ [X _]]]; [exact X | congruence].
 Qed.
 
 (* an item whose write succeeded is not behind a link (the gate would have refused, or there is none) *)
-Lemma ok_item_nolink : forall c p k s s1, link_ok p -> c_dryrun c = false -> write_item render e c s (p, k) = (s1, Ok) -> links e p = None.
+Lemma ok_item_nolink : forall c p k s s1, entry_ok p -> c_dryrun c = false -> write_item render e c s (p, k) = (s1, Ok) ->
+  links e p = None /\ special e p = false.
 Proof.
-  intros c p k s s1 Lk Hd H. destruct (link_cases p Lk) as [Hl|[Hg [d L]]]; [exact Hl|].
-  destruct (W_link_refused c p d k s Hg L Hd) as [er X]. congruence.
+  intros c p k s s1 Lk Hd H. destruct (link_cases p Lk) as [[Hl Hs]|Hr]; [auto|].
+  destruct (W_link_refused c p k s Hr Hd) as [er X]. congruence.
 Qed.
 
-Lemma list_frame_ok : forall c, c_dryrun c = false -> forall l s s', (forall p, In p (map fst l) -> link_ok p) ->
+Lemma list_frame_ok : forall c, c_dryrun c = false -> forall l s s', (forall p, In p (map fst l) -> entry_ok p) ->
   WL c s l = (s', Ok) -> forall q, ~ In q (map fst l) -> s q <> None -> s' q = s q.
 Proof.
   intros c Hd l. induction l as [|[p0 k] r IH]; intros s s' Lk H q Hq Hs; cbn [run_list map fst] in *.
   - injection H as <-. reflexivity.
   - apply bind_ok in H. destruct H as [s1 [H1 H2]].
-    assert (Hl : links e p0 = None) by (apply (ok_item_nolink c p0 k s s1); auto; apply Lk; now left).
+    destruct (ok_item_nolink c p0 k s s1) as [Hl Hsp]; [apply Lk; now left | exact Hd | exact H1 |].
     assert (E1 : s1 q = s q).
-    { apply (W_frame_ok c p0 k s s1 Hl Hd H1); [intros ->; apply Hq; now left | exact Hs]. }
+    { apply (W_frame_ok c p0 k s s1 Hl Hsp Hd H1); [intros ->; apply Hq; now left | exact Hs]. }
     rewrite <- E1. apply (IH s1 s'); [intros x Hx; apply Lk; now right | exact H2 | intros X; apply Hq; now right | congruence].
 Qed.
 
-Lemma list_canonical : forall c, c_dryrun c = false -> no_external (c_filepps c) = true -> forall l s s' p, (forall x, In x (map fst l) -> link_ok x) ->
+Lemma list_canonical : forall c, c_dryrun c = false -> no_external (c_filepps c) = true -> forall l s s' p, (forall x, In x (map fst l) -> entry_ok x) ->
   WL c s l = (s', Ok) -> In p (map fst l) ->
   exists f', s' p = Some f' /\ f_cid f' = Rn c p /\ f_isdir f' = false /\
              (c_filepps c <> [] -> f_mode f' = last_mode (c_filepps c) 0).
 Proof.
   intros c Hd Hne l. induction l as [|[p0 k] r IH]; intros s s' p Lk H Hin; cbn [run_list map fst] in *; [contradiction|].
   apply bind_ok in H. destruct H as [s1 [H1 H2]].
-  assert (Hl : links e p0 = None) by (apply (ok_item_nolink c p0 k s s1); auto; apply Lk; now left).
-  assert (Lk' : forall x, In x (map fst r) -> link_ok x) by (intros x Hx; apply Lk; now right).
+  destruct (ok_item_nolink c p0 k s s1) as [Hl Hsp]; [apply Lk; now left | exact Hd | exact H1 |].
+  assert (Lk' : forall x, In x (map fst r) -> entry_ok x) by (intros x Hx; apply Lk; now right).
   destruct (in_dec N.eq_dec p (map fst r)) as [Hr|Hr].
   - eapply IH; eauto.
   - destruct Hin as [<-|Hin]; [|contradiction].
-    destruct (W_ok render e Hind Hwf c p0 Hl Hd Hne k s s1 H1) as [own [f' [E [C [_ [D M]]]]]].
+    destruct (W_ok render e Hind Hwf c p0 Hl Hsp Hd Hne k s s1 H1) as [own [f' [E [C [_ [D M]]]]]].
     exists f'. rewrite <- E. split; [|auto].
     apply (list_frame_ok c Hd r s1 s' Lk' H2); [exact Hr | congruence].
 Qed.
@@ -889,34 +910,34 @@ Qed.
 
 (* ---- no overwrite ---- *)
 Lemma list_noov_keep : forall c, c_dryrun c = false -> c_allow c = false -> forall l s q,
-  (forall p, In p (map fst l) -> link_ok p) -> s q <> None -> fst (WL c s l) q = s q.
+  (forall p, In p (map fst l) -> entry_ok p) -> s q <> None -> fst (WL c s l) q = s q.
 Proof.
   intros c Hd Ha l. induction l as [|[p0 k] r IH]; intros s q Lk Hq; cbn [run_list map fst] in *; [reflexivity|].
-  assert (Lk' : forall x, In x (map fst r) -> link_ok x) by (intros x Hx; apply Lk; now right).
-  destruct (link_cases p0 (Lk p0 (or_introl eq_refl))) as [Hl|[Hg [d L]]];
-    [|destruct (W_link_refused c p0 d k s Hg L Hd) as [er X]; rewrite X; reflexivity].
+  assert (Lk' : forall x, In x (map fst r) -> entry_ok x) by (intros x Hx; apply Lk; now right).
+  destruct (link_cases p0 (Lk p0 (or_introl eq_refl))) as [[Hl Hs]|Hr];
+    [|destruct (W_link_refused c p0 k s Hr Hd) as [er X]; rewrite X; reflexivity].
   destruct (s p0) as [f|] eqn:E.
-  - destruct (W_refuse_any render e c p0 Hl Hd k s f E Ha) as [er H]. rewrite H. reflexivity.
+  - destruct (W_refuse_any render e c p0 Hl Hs Hd k s f E Ha) as [er H]. rewrite H. reflexivity.
   - assert (Hne : q <> p0) by congruence.
     assert (F : fst (write_item render e c s (p0, k)) q = s q).
-    { destruct (W_rel_fine render e Hwf c p0 Hl Hd k s q) as [X _]. destruct (X Hne) as [Y|[_ [Y _]]]; [exact Y | congruence]. }
+    { destruct (W_rel_fine render e Hwf c p0 Hl Hs Hd k s q) as [X _]. destruct (X Hne) as [Y|[_ [Y _]]]; [exact Y | congruence]. }
     destruct (write_item render e c s (p0, k)) as [s1 [|er]]; cbn [fst] in F.
     + rewrite bind_pair_ok. rewrite IH by (auto; congruence). exact F.
     + rewrite bind_pair_err. exact F.
 Qed.
 
 (* a run that reaches an existing entry it may not replace fails: --no-overwrite conflicts, and directories always *)
-Lemma list_blocked_fails : forall c, c_dryrun c = false -> links_safe c -> forall l s,
+Lemma list_blocked_fails : forall c, c_dryrun c = false -> specials_safe c -> forall l s,
   (forall it, In it l -> In it (items c)) ->
   (exists p f, In p (map fst l) /\ s p = Some f /\ (c_allow c = false \/ f_isdir f = true)) -> snd (WL c s l) <> Ok.
 Proof.
   intros c Hd Ls l. induction l as [|[p0 k] r IH]; intros s Hsub [p [f [Hin [Hp Hb]]]]; cbn [run_list map fst] in *; [contradiction|].
   assert (Hit : In (p0, k) (items c)) by (apply Hsub; now left).
-  pose proof (item_link_ok c (p0, k) Ls Hit) as Lk0. cbn [fst] in Lk0.
-  destruct (link_cases p0 Lk0) as [Hl|[Hg [d L]]];
-    [|destruct (W_link_refused c p0 d k s Hg L Hd) as [er X]; rewrite X; discriminate].
+  pose proof (item_entry_ok c (p0, k) Ls Hit) as Lk0. cbn [fst] in Lk0.
+  destruct (link_cases p0 Lk0) as [[Hl Hs]|Hr];
+    [|destruct (W_link_refused c p0 k s Hr Hd) as [er X]; rewrite X; discriminate].
   assert (Stop : forall f0, s p0 = Some f0 -> (c_allow c = false \/ f_isdir f0 = true) -> exists er, write_item render e c s (p0, k) = (s, Err er)).
-  { intros f0 E0 [Ha|D]; [now apply (W_refuse_any render e c p0 Hl Hd k s f0) | now apply (W_dir_refused render e c p0 Hl Hd k s f0)]. }
+  { intros f0 E0 [Ha|D]; [now apply (W_refuse_any render e c p0 Hl Hs Hd k s f0) | now apply (W_dir_refused render e c p0 Hl Hs Hd k s f0)]. }
   destruct (N.eq_dec p p0) as [->|Hne].
   - destruct (Stop f Hp Hb) as [er H]. rewrite H. discriminate.
   - destruct Hin as [->|Hin]; [congruence|].
@@ -928,27 +949,28 @@ Proof.
     + rewrite bind_pair_err. discriminate.
 Qed.
 
-(* with a gate that refuses links, a link at a target makes the run fail (nothing is written through it) *)
-Lemma list_link_fails : forall c, c_dryrun c = false -> gate_refuses_links -> forall l s,
-  (exists p, In p (map fst l) /\ links e p <> None) -> snd (WL c s l) <> Ok.
+(* a target the gate refuses whatever is or is not there (a symbolic link; a device/FIFO/socket once the gate checks
+   is_file) makes the run fail: nothing is written through it *)
+Lemma list_refused_fails : forall c, c_dryrun c = false -> forall l s,
+  (exists p, In p (map fst l) /\ refused p) -> snd (WL c s l) <> Ok.
 Proof.
-  intros c Hd Hg l. induction l as [|[p0 k] r IH]; intros s [p [Hin Hp]]; cbn [run_list map fst] in *; [contradiction|].
-  destruct (links e p0) as [d|] eqn:L.
-  - destruct (W_link_refused c p0 d k s Hg L Hd) as [er X]. rewrite X. discriminate.
+  intros c Hd l. induction l as [|[p0 k] r IH]; intros s [p [Hin Hp]]; cbn [run_list map fst] in *; [contradiction|].
+  destruct (N.eq_dec p p0) as [->|Hne].
+  - destruct (W_link_refused c p0 k s Hp Hd) as [er X]. rewrite X. discriminate.
   - destruct Hin as [->|Hin]; [congruence|].
     destruct (write_item render e c s (p0, k)) as [s1 [|er]]; [rewrite bind_pair_ok; apply IH; eauto | rewrite bind_pair_err; discriminate].
 Qed.
 
 (* --no-overwrite with pairwise distinct targets: success iff nothing was there, the overwrite error iff something was *)
-Lemma list_noov_step : forall c, c_dryrun c = false -> no_external (c_filepps c) = true -> compatible c c -> links_clear c ->
+Lemma list_noov_step : forall c, c_dryrun c = false -> no_external (c_filepps c) = true -> compatible c c -> targets_plain c ->
   forall p0 k r s, In (p0, k) (items c) -> (forall it, In it r -> In it (items c)) -> ~ In p0 (map fst r) ->
   s p0 = None -> (forall p, In p (p0 :: map fst r) -> ready e s p = true) ->
   exists s1, write_item render e c s (p0, k) = (s1, Ok) /\
              (forall p, In p (map fst r) -> s1 p = s p) /\ (forall p, In p (map fst r) -> ready e s1 p = true).
 Proof.
   intros c Hd Hne Hc Lc p0 k r s Hit Hsub Hnot E Hr.
-  assert (Hl : links e p0 = None) by (apply Lc; unfold targets; now apply (in_map fst _ (p0, k))).
-  destruct (W_absent_ready render e Hind Hwf c p0 Hl Hd Hne k s E (Hr p0 (or_introl eq_refl))) as [s1 [H1 [_ F]]].
+  destruct (Lc p0) as [Hl Hsp]; [unfold targets; now apply (in_map fst _ (p0, k))|].
+  destruct (W_absent_ready render e Hind Hwf c p0 Hl Hsp Hd Hne k s E (Hr p0 (or_introl eq_refl))) as [s1 [H1 [_ F]]].
   exists s1. split; [exact H1|].
   assert (Rl : rel e (tgt c) (anc e c) s s1).
   { replace s1 with (fst (write_item render e c s (p0, k))) by now rewrite H1. apply write_item_rel_fine; [exact Hit | now left]. }
@@ -963,7 +985,7 @@ Proof.
     + apply Hr. now right.
 Qed.
 
-Lemma list_noov_clean : forall c, c_dryrun c = false -> no_external (c_filepps c) = true -> compatible c c -> links_clear c ->
+Lemma list_noov_clean : forall c, c_dryrun c = false -> no_external (c_filepps c) = true -> compatible c c -> targets_plain c ->
   forall l s, (forall it, In it l -> In it (items c)) -> NoDup (map fst l) ->
   (forall p, In p (map fst l) -> ready e s p = true) -> (forall p, In p (map fst l) -> s p = None) -> snd (WL c s l) = Ok.
 Proof.
@@ -979,7 +1001,7 @@ Proof.
   - intros p Hp. rewrite Keep by exact Hp. apply Hn. now right.
 Qed.
 
-Lemma list_noov_conflict : forall c, c_dryrun c = false -> no_external (c_filepps c) = true -> compatible c c -> links_clear c ->
+Lemma list_noov_conflict : forall c, c_dryrun c = false -> no_external (c_filepps c) = true -> compatible c c -> targets_plain c ->
   c_allow c = false -> forall l s, (forall it, In it l -> In it (items c)) -> NoDup (map fst l) ->
   (forall p, In p (map fst l) -> ready e s p = true) ->
   (snd (WL c s l) = Err EExists <-> exists p, In p (map fst l) /\ s p <> None).
@@ -987,9 +1009,9 @@ Proof.
   intros c Hd Hne Hc Lc Ha l. induction l as [|[p0 k] r IH]; intros s Hsub Hnd Hr; cbn [run_list map fst] in *.
   - split; [discriminate | intros [p [[] _]]].
   - inversion Hnd as [|? ? Hnot Hnd']; subst.
-    assert (Hl : links e p0 = None) by (apply Lc; unfold targets; apply (in_map fst _ (p0, k)); apply Hsub; now left).
+    destruct (Lc p0) as [Hl Hsp]; [unfold targets; apply (in_map fst _ (p0, k)); apply Hsub; now left|].
     destruct (s p0) as [f|] eqn:E.
-    + rewrite (W_conflict render e c p0 Hl Hd k s f E Ha). split; [|reflexivity]. intros _. exists p0. split; [now left | congruence].
+    + rewrite (W_conflict render e c p0 Hl Hsp Hd k s f E Ha). split; [|reflexivity]. intros _. exists p0. split; [now left | congruence].
     + assert (X : exists s1, write_item render e c s (p0, k) = (s1, Ok) /\
                  (forall p, In p (map fst r) -> s1 p = s p) /\ (forall p, In p (map fst r) -> ready e s1 p = true))
         by (apply (list_noov_step c Hd Hne Hc Lc p0 k r s);
@@ -1001,14 +1023,14 @@ Proof.
 Qed.
 
 (* ---- overwriting always works when the chains are ready and the entries are the runner's ---- *)
-Lemma list_total : forall c, c_dryrun c = false -> no_external (c_filepps c) = true -> c_allow c = true -> compatible c c -> links_clear c -> forall l s,
+Lemma list_total : forall c, c_dryrun c = false -> no_external (c_filepps c) = true -> c_allow c = true -> compatible c c -> targets_plain c -> forall l s,
   (forall it, In it l -> In it (items c)) ->
   chmodable e s -> (forall p, In p (map fst l) -> ready e s p = true) -> snd (WL c s l) = Ok.
 Proof.
   intros c Hd Hne Ha Hc Lc l. induction l as [|[p0 k] r IH]; intros s Hsub Hch Hr; cbn [run_list map fst] in *; [reflexivity|].
   assert (Hit : In (p0, k) (items c)) by (apply Hsub; now left).
-  assert (Hl : links e p0 = None) by (apply Lc; unfold targets; now apply (in_map fst _ (p0, k))).
-  destruct (W_total render e Hind Hwf c p0 Hl Hd Hne k s Ha (Hr p0 (or_introl eq_refl)) (Hch p0)) as [s1 [own [H1 _]]].
+  destruct (Lc p0) as [Hl Hsp]; [unfold targets; now apply (in_map fst _ (p0, k))|].
+  destruct (W_total render e Hind Hwf c p0 Hl Hsp Hd Hne k s Ha (Hr p0 (or_introl eq_refl)) (Hch p0)) as [s1 [own [H1 _]]].
   rewrite H1, bind_pair_ok.
   assert (Rl : rel e (tgt c) (anc e c) s s1).
   { replace s1 with (fst (write_item render e c s (p0, k))) by now rewrite H1. apply write_item_rel_fine; [exact Hit | now left]. }
@@ -1038,10 +1060,10 @@ Notation STEP := (step render e).
 Notation HIST := (history render e).
 
 (* any state -- in particular the state after any history of runs and crashes *)
-Notation links_safe := (links_safe e).
-Notation links_clear := (links_clear e).
+Notation specials_safe := (specials_safe e).
+Notation targets_plain := (targets_plain e).
 
-Lemma canonical_any_state : forall s c p, links_safe c ->
+Lemma canonical_any_state : forall s c p, specials_safe c ->
   c_dryrun c = false -> no_external (c_filepps c) = true -> c_filepps c <> [] -> snd (STEP s c) = Ok -> In p (targets c) ->
   obs (fst (STEP s c) p) = canonical render e c p.
 Proof.
@@ -1051,7 +1073,7 @@ Proof.
   rewrite E. unfold obs, canonical. rewrite C, (M Hpp). f_equal. f_equal. now apply last_mode_irrel.
 Qed.
 
-Lemma content_any_state : forall s c p, links_safe c ->
+Lemma content_any_state : forall s c p, specials_safe c ->
   c_dryrun c = false -> no_external (c_filepps c) = true -> snd (STEP s c) = Ok -> In p (targets c) ->
   exists f, fst (STEP s c) p = Some f /\ f_isdir f = false /\ f_cid f = render empty_fs 0 (c_class c) p.
 Proof.
@@ -1060,7 +1082,7 @@ Proof.
   destruct (list_canonical render e Hind Hwf c Hd Hne (items c) s s' p Ls H Hin) as [f' [E [C [D _]]]]. eauto.
 Qed.
 
-Theorem regen_equals_fresh : forall h s0 c p, links_safe c ->
+Theorem regen_equals_fresh : forall h s0 c p, specials_safe c ->
   c_dryrun c = false -> no_external (c_filepps c) = true -> c_filepps c <> [] ->
   snd (STEP (HIST s0 h) c) = Ok -> snd (STEP empty_fs c) = Ok -> In p (targets c) ->
   obs (fst (STEP (HIST s0 h) c) p) = obs (fst (STEP empty_fs c) p).
@@ -1071,25 +1093,25 @@ Proof.
 Qed.
 
 (* ---- footprint ---- *)
-Theorem written_in_footprint : forall s c q, links_safe c -> fst (STEP s c) q <> s q ->
+Theorem written_in_footprint : forall s c q, specials_safe c -> fst (STEP s c) q <> s q ->
   In q (targets c) \/ (In q (dir_targets e c) /\ s q = None /\ fst (STEP s c) q = Some (new_dir e)).
 Proof.
   intros s c q Ls H. destruct (in_dec N.eq_dec q (targets c)) as [X|X]; [now left|]. right.
   destruct (step_rel_fine render e Hwf c Ls s q) as [F _]. destruct (F X) as [Y|Y]; [contradiction | exact Y].
 Qed.
 
-Theorem foreign_event : forall s ev q, links_safe (ev_cfg ev) ->
+Theorem foreign_event : forall s ev q, specials_safe (ev_cfg ev) ->
   ~ In q (targets (ev_cfg ev)) -> (s q <> None \/ ~ In q (dir_targets e (ev_cfg ev))) -> apply_event render e s ev q = s q.
 Proof.
   intros s ev q Ls X Z. destruct (event_rel_fine render e Hwf ev s Ls q) as [F _].
   destruct (F X) as [Y|[A [N _]]]; [exact Y|]. destruct Z; [congruence | contradiction].
 Qed.
 
-Theorem foreign_untouched : forall s c q, links_safe c ->
+Theorem foreign_untouched : forall s c q, specials_safe c ->
   ~ In q (targets c) -> (s q <> None \/ ~ In q (dir_targets e c)) -> fst (STEP s c) q = s q.
 Proof. intros s c. exact (foreign_event s (Run c)). Qed.
 
-Theorem history_foreign : forall h s q, (forall ev, In ev h -> links_safe (ev_cfg ev)) ->
+Theorem history_foreign : forall h s q, (forall ev, In ev h -> specials_safe (ev_cfg ev)) ->
   (forall ev, In ev h -> ~ In q (targets (ev_cfg ev))) ->
   (s q <> None \/ forall ev, In ev h -> ~ In q (dir_targets e (ev_cfg ev))) ->
   HIST s h q = s q.
@@ -1101,7 +1123,7 @@ Proof.
   - destruct Z as [Z|Z]; [congruence | exfalso; exact (Z ev Hev A)].
 Qed.
 
-Theorem foreign_dirs_only : forall h s q, (forall ev, In ev h -> links_safe (ev_cfg ev)) ->
+Theorem foreign_dirs_only : forall h s q, (forall ev, In ev h -> specials_safe (ev_cfg ev)) ->
   (forall ev, In ev h -> ~ In q (targets (ev_cfg ev))) ->
   HIST s h q = s q \/ (s q = None /\ HIST s h q = Some (new_dir e)).
 Proof.
@@ -1111,7 +1133,7 @@ Proof.
 Qed.
 
 (* ---- no overwrite ---- *)
-Theorem no_overwrite_safe : forall s c q, links_safe c -> c_allow c = false -> s q <> None -> fst (STEP s c) q = s q.
+Theorem no_overwrite_safe : forall s c q, specials_safe c -> c_allow c = false -> s q <> None -> fst (STEP s c) q = s q.
 Proof.
   intros s c q Ls Ha Hq. rewrite step_flat. destruct (c_dryrun c) eqn:Hd.
   - now rewrite list_dry.
@@ -1119,7 +1141,7 @@ Proof.
 Qed.
 
 Theorem no_overwrite_safe_history : forall h s0 q,
-  (forall ev, In ev h -> exists c, ev = Run c /\ c_allow c = false /\ links_safe c) -> s0 q <> None -> HIST s0 h q = s0 q.
+  (forall ev, In ev h -> exists c, ev = Run c /\ c_allow c = false /\ specials_safe c) -> s0 q <> None -> HIST s0 h q = s0 q.
 Proof.
   induction h as [|ev r IH]; intros s0 q Hall Hq; cbn [history fold_left]; [reflexivity|].
   destruct (Hall ev (or_introl eq_refl)) as [c [-> [Ha Ls]]]. cbn [apply_event].
@@ -1130,7 +1152,7 @@ Proof.
   - congruence.
 Qed.
 
-Theorem no_overwrite_conflict_fails : forall s c, links_safe c ->
+Theorem no_overwrite_conflict_fails : forall s c, specials_safe c ->
   c_dryrun c = false -> c_allow c = false ->
   (exists p, In p (targets c) /\ s p <> None) -> snd (STEP s c) <> Ok.
 Proof.
@@ -1139,14 +1161,14 @@ Proof.
 Qed.
 
 (* a directory at the path of a file to generate is never written into, chmod-ed or replaced: the run fails (fix 7df01dd) *)
-Theorem directory_at_target_fails : forall s c, links_safe c ->
+Theorem directory_at_target_fails : forall s c, specials_safe c ->
   c_dryrun c = false -> (exists p, In p (targets c) /\ fs_is_dir s p = true) -> snd (STEP s c) <> Ok.
 Proof.
   intros s c Ls Hd [p [Hin Hp]]. rewrite step_flat. apply (list_blocked_fails render e Hwf c Hd Ls); auto.
   unfold fs_is_dir in Hp. destruct (s p) as [f|] eqn:E; [|discriminate]. exists p, f. auto.
 Qed.
 
-Theorem directory_at_target_kept : forall s ev q f, links_safe (ev_cfg ev) -> s q = Some f -> f_isdir f = true ->
+Theorem directory_at_target_kept : forall s ev q f, specials_safe (ev_cfg ev) -> s q = Some f -> f_isdir f = true ->
   exists f', apply_event render e s ev q = Some f' /\ f_isdir f' = true /\ f_owned f' = f_owned f /\
              (~ In q (targets (ev_cfg ev)) -> f' = f).
 Proof.
@@ -1156,18 +1178,18 @@ Proof.
 Qed.
 
 Theorem no_overwrite_ok_iff : forall s c,
-  c_dryrun c = false -> c_allow c = false -> no_external (c_filepps c) = true -> compatible e c c -> links_clear c ->
+  c_dryrun c = false -> c_allow c = false -> no_external (c_filepps c) = true -> compatible e c c -> targets_plain c ->
   NoDup (targets c) -> (forall p, In p (targets c) -> ready e s p = true) ->
   (snd (STEP s c) = Ok <-> forall p, In p (targets c) -> s p = None).
 Proof.
   intros s c Hd Ha Hne Hc Lc Hnd Hr. rewrite step_flat. split.
   - intros H p Hin. destruct (s p) as [f|] eqn:E; [|reflexivity]. exfalso.
-    apply (list_blocked_fails render e Hwf c Hd (links_clear_safe e c Lc) (items c) s); auto. exists p, f. auto.
+    apply (list_blocked_fails render e Hwf c Hd (targets_plain_safe e c Lc) (items c) s); auto. exists p, f. auto.
   - intros H. apply (list_noov_clean render e Hind Hwf c Hd Hne Hc Lc); auto.
 Qed.
 
 Theorem no_overwrite_error_iff : forall s c,
-  c_dryrun c = false -> c_allow c = false -> no_external (c_filepps c) = true -> compatible e c c -> links_clear c ->
+  c_dryrun c = false -> c_allow c = false -> no_external (c_filepps c) = true -> compatible e c c -> targets_plain c ->
   NoDup (targets c) -> (forall p, In p (targets c) -> ready e s p = true) ->
   (snd (STEP s c) = Err EExists <-> exists p, In p (targets c) /\ s p <> None).
 Proof.
@@ -1181,7 +1203,7 @@ Proof. intros s c Hd. rewrite step_flat. now apply list_dry. Qed.
 Theorem regen_total_history : forall h s0 c,
   chmodable e s0 -> (forall p, In p (targets c) -> ready e s0 p = true) ->
   compatible e c c -> (forall ev, In ev h -> compatible e c (ev_cfg ev)) ->
-  links_clear c -> (forall ev, In ev h -> links_safe (ev_cfg ev)) ->
+  targets_plain c -> (forall ev, In ev h -> specials_safe (ev_cfg ev)) ->
   c_allow c = true -> c_dryrun c = false -> no_external (c_filepps c) = true ->
   snd (STEP (HIST s0 h) c) = Ok.
 Proof.
@@ -1196,13 +1218,23 @@ Proof.
     + now apply Hr.
 Qed.
 
-Theorem chmodable_history : forall h s0, (forall ev, In ev h -> links_safe (ev_cfg ev)) -> chmodable e s0 -> chmodable e (HIST s0 h).
+Theorem chmodable_history : forall h s0, (forall ev, In ev h -> specials_safe (ev_cfg ev)) -> chmodable e s0 -> chmodable e (HIST s0 h).
 Proof. intros h s0 Ls H. eapply rel_chmodable; [apply (history_rel_fine render e Hwf h s0 Ls) | exact H]. Qed.
 
 (* with a gate that refuses links: a link at a target makes the run fail *)
-Theorem symlink_at_target_fails : forall s c, gate_refuses_links ->
+Theorem symlink_at_target_fails : forall s c,
   c_dryrun c = false -> (exists p, In p (targets c) /\ links e p <> None) -> snd (STEP s c) <> Ok.
-Proof. intros s c Hg Hd H. rewrite step_flat. now apply (list_link_fails render e c Hd Hg). Qed.
+Proof.
+  intros s c Hd [p [Hin Hp]]. rewrite step_flat. apply (list_refused_fails render e c Hd). exists p. split; [exact Hin|].
+  intros s0 a. destruct (links e p) as [d|] eqn:L; [|congruence]. exact (gate_refuses_links_now e s0 p a d L).
+Qed.
+
+Theorem special_at_target_fails : forall s c, gate_refuses_special ->
+  c_dryrun c = false -> (exists p, In p (targets c) /\ links e p = None /\ special e p = true) -> snd (STEP s c) <> Ok.
+Proof.
+  intros s c Hg Hd [p [Hin [L S]]]. rewrite step_flat. apply (list_refused_fails render e c Hd). exists p. split; [exact Hin|].
+  intros s0 a. now apply Hg.
+Qed.
 
 (* all three writers are "the gate, then the rest" *)
 Theorem same_gate : forall c p k, c_dryrun c = false ->
@@ -1236,9 +1268,11 @@ Definition wit_render : fs -> N -> N -> path -> N := fun _ _ cl p => 1000000 + c
 
 (* paths: 1 = nunavut/, 2 = nunavut/extra.hpp (target of a copied support file), 3 = nunavut/extra.hpp/extra.h, 4 = nunavut/x.hpp *)
 Definition wit_anc (p : path) : list path := if N.eqb p 2 then [1] else if N.eqb p 3 then [1; 2] else if N.eqb p 4 then [1] else [].
-Definition wit_env (su : bool) : env := mkEnv su 18 true wit_anc (fun p => p + 1) (fun _ => None).
+Definition wit_env (su : bool) : env := mkEnv su 18 true wit_anc (fun p => p + 1) (fun _ => None) (fun _ => false).
 (* the same tree where 4 = nunavut/x.hpp is a symbolic link to 9, a path outside the output directory *)
-Definition wit_env_link (su : bool) : env := mkEnv su 18 true wit_anc (fun p => p + 1) (fun p => if N.eqb p 4 then Some 9 else None).
+Definition wit_env_link (su : bool) : env := mkEnv su 18 true wit_anc (fun p => p + 1) (fun p => if N.eqb p 4 then Some 9 else None) (fun _ => false).
+(* ... and where 4 is a character device *)
+Definition wit_env_special (su : bool) : env := mkEnv su 18 true wit_anc (fun p => p + 1) (fun _ => None) (fun p => N.eqb p 4).
 Definition wit_cfg (allow linepps : bool) (types : list path) (typesup : list (path * bool)) : cfg :=
   mkCfg 7 0 allow false linepps [PPSetFileMode 292] GSAlways false [] typesup types 416.
 
@@ -1249,39 +1283,41 @@ Proof.
   exists (wit_env false), empty_fs, (wit_cfg true false [4] []), 1. vm_compute. repeat split; try discriminate. intuition discriminate.
 Qed.
 
-(* ---- symbolic links at targets (audit 2, G-C12-1) ------------------------------------------------------------------------
-   Whether the gate of /repo refuses links is decided by computation on the translated gate: *)
+(* ---- FIX-STATE GUARDS (audit 3) -------------------------------------------------------------------------------------------
+   For every finding of C12 recorded as fixed in known_findings.d/C12.json (flags regenerated on every run) the defect's witness,
+   run on the model translated from /repo, must NOT reproduce.  A revert of 7df01dd / 84a8551 / the non-regular fix breaks
+   this theorem (and gate_refuses_links_now / handle_overwrite_dir above). *)
 Definition wit_dirs : fs := upd empty_fs 1 (mkF 0 493 true true).
-Definition link_quirk : bool :=
-  is_ok (snd (step wit_render (wit_env_link false) wit_dirs (wit_cfg false false [4] []))).
+Definition wit_dir_fs : fs := upd wit_dirs 2 (mkF 0 493 true true).
+(* a directory at the target of a copied support file: does the run report success? *)
+Definition dir_quirk : bool := is_ok (snd (step wit_render (wit_env false) wit_dir_fs (wit_cfg true false [] [(2, false)]))).
+(* a dangling symbolic link at a target under --no-overwrite *)
+Definition link_quirk : bool := is_ok (snd (step wit_render (wit_env_link false) wit_dirs (wit_cfg false false [4] []))).
+(* a character device at a target *)
+Definition wit_special_fs : fs := upd wit_dirs 4 (mkF 0 292 true false).
+Definition special_quirk : bool := is_ok (snd (step wit_render (wit_env_special false) wit_special_fs (wit_cfg true false [4] []))).
 
-Lemma gate_links_dichotomy : gate_refuses_links \/ link_quirk = true.
+Theorem fix_state_guards :
+  implb fixed_directory_refusal (negb dir_quirk) && implb fixed_symlink_refusal (negb link_quirk)
+  && implb fixed_nonregular_refusal (negb special_quirk) = true.
+Proof. vm_compute. reflexivity. Qed.
+
+(* the gate refuses devices/FIFOs/sockets as soon as the non-regular fix is recorded as landed *)
+Theorem nonregular_regime : if fixed_nonregular_refusal then gate_refuses_special else True.
 Proof.
-  first [ left; intros e s p a d L; unfold handle_overwrite, is_symlink; rewrite L;
-          destruct (fs_exists s (resolve e p)), (fs_is_dir s (resolve e p)), a; cbn [orb andb negb]; eexists; reflexivity
-        | right; vm_compute; reflexivity ].
+  unfold fixed_nonregular_refusal.
+  first [ exact I
+        | intros e s p a L S; unfold handle_overwrite, resolve, is_symlink, fs_exists_at, fs_is_file; rewrite L, S;
+          rewrite ?orb_true_r; destruct (s p) as [f|]; cbn [negb]; rewrite ?andb_false_r; eexists; reflexivity ].
 Qed.
 
-(* (a) a DANGLING link at a target under --no-overwrite: exists() is False, no conflict is reported, the run succeeds and the
-   file is created at the link's destination -- a path that is not a target (outside the output directory) *)
-Theorem dangling_link_no_overwrite_refuted : link_quirk = true ->
-  exists e s c p d, c_allow c = false /\ c_dryrun c = false /\ In p (targets c) /\ links e p = Some d /\
-    ~ In d (targets c) /\ s d = None /\ snd (step wit_render e s c) = Ok /\
-    obs (fst (step wit_render e s c) d) = Some (1070004, 292).
+(* while it has not: a device at a target is chmod-ed, "written" (the device swallows the text) and the run reports success
+   although the target does not hold the generated text *)
+Theorem special_at_target_refuted : special_quirk = true ->
+  exists e s c p, c_dryrun c = false /\ c_allow c = true /\ In p (targets c) /\ special e p = true /\
+    snd (step wit_render e s c) = Ok /\ obs (fst (step wit_render e s c) p) = Some (0, 292).
 Proof.
-  unfold link_quirk. intros H.
-  exists (wit_env_link false), wit_dirs, (wit_cfg false false [4] []), 4, 9.
-  vm_compute in H. first [discriminate H | clear H; vm_compute; intuition (try discriminate; try reflexivity)].
-Qed.
-
-(* (b) a LIVE link to a foreign read-only file, overwriting allowed: the foreign file is chmod-ed and rewritten *)
-Theorem live_link_overwrite_refuted : link_quirk = true ->
-  exists e s c p d, c_allow c = true /\ c_dryrun c = false /\ In p (targets c) /\ links e p = Some d /\
-    ~ In d (targets c) /\ obs (s d) = Some (55, 292) /\ snd (step wit_render e s c) = Ok /\
-    obs (fst (step wit_render e s c) d) = Some (1070004, 292).
-Proof.
-  unfold link_quirk. intros H.
-  exists (wit_env_link false), (upd wit_dirs 9 (mkF 55 292 true false)), (wit_cfg true false [4] []), 4, 9.
+  unfold special_quirk. intros H. exists (wit_env_special false), wit_special_fs, (wit_cfg true false [4] []), 4.
   vm_compute in H. first [discriminate H | clear H; vm_compute; intuition (try discriminate; try reflexivity)].
 Qed.
 
